@@ -292,6 +292,17 @@ fn native_spec() {
                 println!("SPEC-REPLAY MISMATCH target=react_actions case=--t --t args_override_self={over}: accepted={}", r.is_ok());
             }
         }
+        // per-argument self-override behaves like args_override_self for that argument
+        for (id, action, argv, _) in [
+            ("s", ArgAction::Set, vec!["p", "--s", "1", "--s", "2"], 0),
+            ("s", ArgAction::SetTrue, vec!["p", "--s", "--s"], 0),
+            ("s", ArgAction::SetFalse, vec!["p", "--s", "--s"], 0),
+        ] {
+            let r = Command::new("p").arg(Arg::new(id).long("s").action(action.clone()).overrides_with(id)).try_get_matches_from(argv.clone());
+            if let Err(e) = &r {
+                println!("SPEC-REPLAY MISMATCH target=react_actions case={argv:?} with {action:?} and overrides_with(self): rejected as {:?}", e.kind());
+            }
+        }
         let m = mk(false).try_get_matches_from(["p", "--app", "a", "--t", "--app", "b", "--f", "--app", "c"]).unwrap();
         let app: Vec<String> = m.get_many::<String>("app").unwrap().cloned().collect();
         if app != ["a", "b", "c"] || !m.get_flag("t") || m.get_flag("f") {
